@@ -37,13 +37,15 @@ BOX_FIELDS = ("std::boxed::Box", "std::ptr::Unique", "std::ptr::NonNull")
 class Sym(object):
     """Def-use terms for the locals of one MIR body."""
 
-    def __init__(self, body, roles):
+    def __init__(self, body, roles, crate=None, allowed=None, depth=0):
         self.body = body
         self.blocks = body["mir"]["blocks"]
         self.roles = roles
+        self.crate = crate
+        self.depth = depth
         self.defs = {}
         for bi, bb in enumerate(self.blocks):
-            if bb["cleanup"]:
+            if bb["cleanup"] or (allowed is not None and bi not in allowed):
                 continue
             for st in bb["st"]:
                 if "lhs" in st and not st["lhs"]["p"]:
@@ -78,13 +80,82 @@ class Sym(object):
                 path.append(("?", repr(e)))
         if not path:
             return base
-        if base[0] == "path":
-            return ("path", base[1], base[2] + tuple(path))
-        return ("path", base, tuple(path))
+        return self.norm(project(base, tuple(path)))
+
+    # -- iteration: `next(ITER) as Some .0` is "an element of what ITER runs over", whatever mixture of
+    #    loops and iterator adaptors produced ITER
+    def norm(self, t):
+        if t[0] == "path" and _is_call(t[1], "Iterator>::next") and t[2][:2] == (("as", "Some"), ("f", 0)):
+            return project(self.elem(t[1][3][0]), t[2][2:])
+        return t
+
+    def elem(self, it):
+        if not (isinstance(it, tuple) and len(it) == 4 and it[0] == "call"):
+            if isinstance(it, tuple) and it and it[0] == "phi":
+                return phi([self.elem(x) for x in it[1]])
+            return ("elem", it)
+        name, args = it[1], it[3]
+        if not args:
+            return ("elem", it)
+
+        def m(*meths):
+            return any(_re.search(r"(Iterator>?|IntoIterator>?)::%s$" % x, name) for x in meths)
+        if (m("into_iter", "copied", "cloned", "rev", "peekable", "by_ref", "fuse") or _re.search(
+                r"(::iter|::iter_mut|::into_iter|Deref>::deref|DerefMut>::deref_mut|::as_slice|::drain)$", name)) \
+                and not name.startswith("nfa::NFA::") and not name.startswith("dfa::DFA::"):
+            return self.elem(args[0])
+        if m("map") and len(args) == 2:
+            return self.apply(args[1], self.elem(args[0]))
+        if m("filter_map") and len(args) == 2:
+            return project(self.apply(args[1], self.elem(args[0])), (("as", "Some"), ("f", 0)))
+        if m("filter") and len(args) == 2:
+            e = self.elem(args[0])
+            return ("guarded", self.apply(args[1], e), e)
+        if m("enumerate"):
+            return ("agg", "tuple", (("index",), self.elem(args[0])))
+        if m("chain") and len(args) == 2:
+            return phi([self.elem(args[0]), self.elem(args[1])])
+        if name.endswith("::values") or name.endswith("::values_mut") or name.endswith("::into_values"):
+            return project(self.elem(args[0]), (("f", 1),))
+        if name.endswith("::keys") or name.endswith("::into_keys"):
+            return project(self.elem(args[0]), (("f", 0),))
+        return ("elem", it)
+
+    CTORS = _re.compile(r"(Vec::new|Vec::with_capacity|Default>::default|RangeMap::new|HashSet::new|HashMap::new|"
+                        r"BTreeSet::new|BTreeMap::new|box_assume_init_into_vec_unsafe|String::new)$")
+    ADDERS = _re.compile(r"(Vec::push|HashSet::insert|BTreeSet::insert|Extend>::extend|RangeMap::insert|"
+                         r"RangeMap::insert_ranges|HashMap::insert|BTreeMap::insert|String::push|String::push_str)$")
+
+    def all_calls(self):
+        if not hasattr(self, "_all_calls"):
+            self._all_calls = _calls(self)
+        return self._all_calls
+
+    def contents(self, term):
+        """Value arguments of the calls that add to the collection created by constructor term `term`."""
+        out = []
+        if not (isinstance(term, tuple) and len(term) == 4 and term[0] == "call" and self.CTORS.search(term[1])):
+            return out
+        for bi, c, a in self.all_calls():
+            if a and a[0] == term and self.ADDERS.search(c):
+                for v in a[1:]:
+                    if not (v[0] == "agg" and v[1].startswith("closure:")):
+                        out.append(self.elem(v) if c.endswith("Extend>::extend") or c.endswith("insert_ranges") else v)
+        return out
+
+    def apply(self, clo, arg):
+        """Result of calling closure term `clo` on `arg` (the closure's body evaluated symbolically)."""
+        if clo[0] == "agg" and clo[1].startswith("closure:") and self.crate is not None and self.depth < 4:
+            cb = self.crate.body(norm_path(clo[1][len("closure:"):]))
+            if cb is not None:
+                child = Sym(cb, {1: clo, 2: arg}, crate=self.crate, depth=self.depth + 1)
+                return child.local(0)
+        return ("apply", clo, arg)
 
     def local(self, l, seen=()):
         if l in self.roles:
-            return ("param", self.roles[l])
+            r = self.roles[l]
+            return r if isinstance(r, tuple) else ("param", r)
         if l in self.memo:
             return self.memo[l]
         if l in seen:
@@ -108,20 +179,73 @@ class Sym(object):
                 elif k == "cast":
                     out.append(self.operand(d["o"], seen))
                 elif k == "agg":
-                    out.append(("agg", repr(d.get("kind"))[:60], tuple(self.operand(a, seen) for a in d["ops"])))
+                    out.append(("agg", agg_kind(d.get("kind") or {}), tuple(self.operand(a, seen) for a in d["ops"])))
                 elif k == "discr":
                     out.append(("discr", self.place(d["p"], seen)))
+                elif k == "bin":
+                    out.append(("bin", d["op"].replace("WithOverflow", ""), self.operand(d["a"], seen),
+                                self.operand(d["b"], seen)))
+                elif k == "un":
+                    out.append(("un", d["op"], self.operand(d["a"], seen)))
                 else:
                     out.append(("op", k))
-        if not out:
-            r = ("undef", l)
-        elif len(set(out)) == 1:
-            r = out[0]
-        else:
-            r = ("phi", frozenset(out))
+        r = phi(out) if out else ("undef", l)
         if not any(_has_loop(x) for x in out):
             self.memo[l] = r
         return r
+
+
+def agg_kind(k):
+    a = k.get("agg")
+    if a == "adt":
+        return "adt:%s:%s" % (k.get("adt"), k.get("variant"))
+    if a == "closure":
+        return "closure:%s" % k.get("def")
+    return str(a)
+
+
+def phi(alts):
+    flat = []
+    for a in alts:
+        if isinstance(a, tuple) and a and a[0] == "phi":
+            flat.extend(a[1])
+        else:
+            flat.append(a)
+    u = set(flat)
+    if len(u) == 1:
+        return flat[0]
+    return ("phi", frozenset(u))
+
+
+def project(base, path):
+    """`base` followed by the projection `path`, folding projections of aggregates (a field of a
+    tuple / struct / enum variant built in this function is the operand it was built from; the
+    overflow flag of a checked operation is dropped) and distributing over phi."""
+    if not path:
+        return base
+    if base[0] == "path":
+        return project(base[1], base[2] + tuple(path))
+    if base[0] == "phi":
+        alts = []
+        for a in base[1]:
+            r = project(a, path)
+            if r is not None and r != ("nothing",):
+                alts.append(r)
+        return phi(alts) if alts else ("nothing",)
+    if base[0] == "agg":
+        kind, ops = base[1], base[2]
+        i = 0
+        if path[0][0] == "as":
+            if kind.startswith("adt:") and not kind.endswith(":" + str(path[0][1])):
+                return ("nothing",)       # another variant: this alternative cannot be projected
+            i = 1
+        if i < len(path) and path[i][0] == "f" and isinstance(path[i][1], int) and path[i][1] < len(ops):
+            return project(ops[path[i][1]], path[i + 1:])
+        if i == len(path):
+            return base
+    if base[0] == "bin" and path[0] == ("f", 0):
+        return project(base, path[1:])     # (value, overflowed).0 of a checked operation
+    return ("path", base, tuple(path))
 
 
 def _has_loop(t):
@@ -157,6 +281,14 @@ def show(t):
         return "%s(%s)" % (t[1].rsplit("::", 1)[-1], ", ".join(show(a) for a in t[3]))
     if t[0] == "phi":
         return "phi" + show(t[1])
+    if t[0] == "elem":
+        return "elem(%s)" % show(t[1])
+    if t[0] == "guarded":
+        return "%s if %s" % (show(t[2]), show(t[1]))
+    if t[0] == "agg":
+        return "%s(%s)" % (t[1].rsplit(":", 1)[-1] if t[1].startswith("adt:") else t[1][:40], ", ".join(show(x) for x in t[2]))
+    if t[0] == "bin":
+        return "(%s %s %s)" % (show(t[2]), t[1], show(t[3]))
     if t[0] == "const":
         return str(t[1])
     return repr(t)
@@ -171,26 +303,38 @@ def sub_of(term, variant):
 
 
 def arms_of(body, re_local):
-    """{discriminant value: entry block} for the `match *re` at the top, plus per-arm private blocks."""
+    """For every value v of `discriminant(*re)`: the blocks reachable from the function entry when every
+    switch on that discriminant (the `match` itself, a later `if let Regex::X(..) = re`, an or-pattern
+    arm shared by several variants) takes the edge for v. Returns ({v: first block of the arm},
+    {v: sorted reachable blocks})."""
     blocks = body["mir"]["blocks"]
-    sw = None
+    discr_switch = {}
+    first = None
     for bi, bb in enumerate(blocks):
+        if bb["cleanup"]:
+            continue
         t = bb["term"]
-        if t["k"] == "switch":
-            d = t["d"].get("move") or t["d"].get("copy")
-            for st in bb["st"]:
-                if "lhs" in st and d is not None and st["lhs"]["l"] == d["l"] and st["rv"]["k"] == "discr" \
-                        and st["rv"]["p"]["l"] == re_local:
-                    sw = t
-            if sw:
-                break
-    if sw is None:
+        if t["k"] != "switch":
+            continue
+        d = t["d"].get("move") or t["d"].get("copy")
+        if d is None:
+            continue
+        for st in bb["st"]:
+            if "lhs" in st and st["lhs"]["l"] == d["l"] and st["rv"]["k"] == "discr" and \
+                    st["rv"]["p"]["l"] == re_local and all(e == "*" for e in st["rv"]["p"]["p"]):
+                discr_switch[bi] = t
+                if first is None:
+                    first = bi
+    if first is None:
         return None, None
-    entries = {v: tg for v, tg in sw["arms"]}
-    reach = {}
-    for v, e in entries.items():
+    values = sorted({v for t in discr_switch.values() for v, _ in t["arms"]})
+    entries, reach = {}, {}
+    for v in values:
+        arms0 = dict(discr_switch[first]["arms"])
+        if v in arms0:
+            entries[v] = arms0[v]
         seen = set()
-        work = [e]
+        work = [0]
         while work:
             b = work.pop()
             if b in seen or b is None or b < 0 or b >= len(blocks) or blocks[b]["cleanup"]:
@@ -198,7 +342,10 @@ def arms_of(body, re_local):
             seen.add(b)
             t = blocks[b]["term"]
             k = t["k"]
-            if k == "goto":
+            if b in discr_switch:
+                arms = dict(t["arms"])
+                work.append(arms[v] if v in arms else t["else"])
+            elif k == "goto":
                 work.append(t["t"])
             elif k == "switch":
                 work.extend(tg for _, tg in t["arms"])
@@ -206,13 +353,8 @@ def arms_of(body, re_local):
             elif k in ("call", "assert", "drop"):
                 if t.get("t") is not None:
                     work.append(t["t"])
-        reach[v] = seen
-    count = {}
-    for v, s in reach.items():
-        for b in s:
-            count[b] = count.get(b, 0) + 1
-    private = {v: sorted(b for b in s if count[b] == 1) for v, s in reach.items()}
-    return entries, private
+        reach[v] = sorted(seen)
+    return entries, reach
 
 
 def arm_calls(sym, blocks_of_arm):
@@ -298,7 +440,7 @@ def check_rthompson(ctx, prog):
     ctx.ob("R-THOMPSON", "add_re takes (nfa, bindings, re, current, cont)", body["mir"]["argc"] == 5,
            key="R-THOMPSON:arity", where=body["span"])
     variants = [v["name"] for v in adt["variants"]]
-    sym = Sym(body, ROLES_ADD_RE)
+    sym = Sym(body, ROLES_ADD_RE, crate=lex)
     entries, private = arms_of(body, 3)
     if not ctx.ob("R-THOMPSON", "add_re dispatches on the variant of `re`", entries is not None,
                   key="R-THOMPSON:dispatch", where=body["span"]):
@@ -312,6 +454,7 @@ def check_rthompson(ctx, prog):
                    where=body["span"], detail="a shared `otherwise` arm cannot be checked per variant")
             continue
         handled += 1
+        sym = Sym(body, ROLES_ADD_RE, crate=lex, allowed=set(private[idx]))
         calls = arm_calls(sym, private[idx])
         where = sym.blocks[entries[idx]].get("span")
         builder = [(bi, c, a) for bi, c, a, t in calls if c.startswith("nfa::NFA::") and not c.endswith("new_state")]
@@ -359,7 +502,7 @@ def check_rthompson(ctx, prog):
                     ctx.ob("R-THOMPSON", "Diff: the class is regex_to_range_map(bindings, re) of the whole "
                            "`#` expression", good, key=key + ":class", where=where, detail=show(m))
                 else:
-                    good = class_of_builtin(m, "Builtin")
+                    good = class_of_builtin(m, "Builtin", sym)
                     ctx.ob("R-THOMPSON", "Builtin: the class is the table found for the name "
                            "(get_builtin_regex(name).get_ranges())", good, key=key + ":class", where=where,
                            detail=show(m))
@@ -381,13 +524,41 @@ def is_binding_lookup(x):
         x[3][0] == ("param", "bindings") and sub_of(x[3][1], "Var") == 0
 
 
-def class_of_builtin(m, variant):
-    has_lookup = contains(m, lambda x: isinstance(x, tuple) and len(x) == 4 and x[0] == "call"
-                          and x[1] == "regex_to_nfa::get_builtin_regex" and sub_of(x[3][0], variant) == 0)
-    has_ranges = contains(m, lambda x: isinstance(x, tuple) and len(x) == 4 and x[0] == "call"
-                          and x[1].endswith("BuiltinCharRange::get_ranges"))
-    ctor = m[0] == "call" and m[1].endswith("RangeMap::from_non_overlapping_sorted_ranges")
-    return has_lookup and has_ranges and ctor
+def re_dependencies(term, sym=None):
+    """The parts of the `re` parameter a term is computed from: set of projection paths (() = whole).
+    Collections built by a constructor and filled by push/insert/extend are followed into what was
+    added to them."""
+    out = set()
+    seen = set()
+
+    def walk(t):
+        if isinstance(t, tuple):
+            if t == ("param", "re"):
+                out.add(())
+                return
+            if len(t) == 3 and t[0] == "path" and t[1] == ("param", "re"):
+                out.add(t[2][:2])
+                return
+            if sym is not None and len(t) == 4 and t[0] == "call" and t not in seen:
+                seen.add(t)
+                for v in sym.contents(t):
+                    walk(v)
+            for x in t:
+                walk(x)
+        elif isinstance(t, frozenset):
+            for x in t:
+                walk(x)
+    walk(term)
+    return out
+
+
+def class_of_builtin(m, variant, sym=None):
+    """The class is a RangeMap computed from the built-in's *name* and from nothing else of `re`
+    (which table belongs to which name is R-MAP's business, C13)."""
+    deps = re_dependencies(m, sym)
+    builds_map = contains(m, lambda x: _is_call(x, "RangeMap::from_non_overlapping_sorted_ranges")
+                          or _is_call(x, "RangeMap::new") or _is_call(x, "RangeMap::insert_ranges"))
+    return deps == {(("as", variant), ("f", 0))} and builds_map
 
 
 def check_composite(ctx, vname, key, where, builder, rec):
@@ -562,19 +733,22 @@ def check_string_arm(ctx, sym, key, where, builder, rec, arm_blocks):
            where=where, detail=[c for _, c, a in builder + rec])
     if not ok_calls:
         return
+    all_src = [a[1] for _, c, a in builder]
+    all_tgt = [a[3] for _, c, a in builder]
+    ctx.ob("R-THOMPSON", "String: the chain starts at `current` (some transition's source is `current` or the "
+           "previous transition's target)", any(contains(x, lambda y: y == CURRENT) for x in all_src),
+           key=key + ":source", where=where, detail=[show(x) for x in all_src])
+    ctx.ob("R-THOMPSON", "String: the chain can end at `cont` (targets are fresh states or `cont`)",
+           any(contains(x, lambda y: y == CONT) for x in all_tgt) and
+           all(all(is_state_term(alt) or alt == ("nothing",) for alt in (x[1] if x[0] == "phi" else [x])) for x in all_tgt),
+           key=key + ":target", where=where, detail=[show(x) for x in all_tgt])
     for bi, c, a in builder:
         src, ch, tgt = a[1], a[2], a[3]
-        from_iter = contains(ch, lambda x: isinstance(x, tuple) and len(x) == 4 and x[0] == "call" and
-                             _re.search(r"Iterator>::next$", x[1]) is not None)
-        from_str = contains(ch, lambda x: x == ("path", ("param", "re"), (("as", "String"), ("f", 0))))
+        from_iter = contains(ch, lambda x: isinstance(x, tuple) and len(x) == 2 and x[0] == "elem")
+        from_str = contains(ch, lambda x: isinstance(x, tuple) and len(x) == 2 and x[0] == "elem" and contains(
+            x[1], lambda y: y == ("path", ("param", "re"), (("as", "String"), ("f", 0)))))
         ctx.ob("R-THOMPSON", "String: the label of each transition is a character taken from the string's "
                "own iterator", from_iter and from_str, key=key + ":label", where=where, detail=show(ch))
-        ctx.ob("R-THOMPSON", "String: the chain starts at `current` (the source is `current` or the previous "
-               "transition's target)", contains(src, lambda x: x == CURRENT), key=key + ":source", where=where,
-               detail=show(src))
-        ctx.ob("R-THOMPSON", "String: the chain can end at `cont` (the target is a fresh state or `cont`)",
-               contains(tgt, lambda x: x == CONT) and contains(tgt, lambda x: isinstance(x, tuple) and x[:1] == ("new",)),
-               key=key + ":target", where=where, detail=show(tgt))
         ctx.ob("R-THOMPSON", "String: no transition enters `current`",
                not contains(tgt, lambda x: x == CURRENT), key=key + ":interface", where=where, detail=show(tgt))
         # last-character test: `cont` is chosen exactly when the iterator has no further character
@@ -643,20 +817,19 @@ def check_charset_arm(ctx, sym, key, where, builder, rec, calls, arm_blocks, fn)
     ctx.ob("R-THOMPSON", "CharSet: both kinds of item (character, range) are added", kinds == {"Char", "Range"},
            key=key + ":kinds", where=where, detail=sorted(kinds))
     # the items come from the set's own list
-    src_ok = False
-    for bi, c, a, t in calls:
-        if _re.search(r"(IntoIterator>::into_iter|::iter)$", c) and contains(
-                a[0], lambda x: isinstance(x, tuple) and x[:2] == ("path", ("param", "re")) and x[2][0] == ("as", "CharSet")):
-            src_ok = True
+    src_ok = bool(builder) and all(
+        contains(a[2], lambda x: isinstance(x, tuple) and len(x) == 2 and x[0] == "elem" and contains(
+            x[1], lambda y: isinstance(y, tuple) and y[:2] == ("path", ("param", "re")) and y[2][0] == ("as", "CharSet")))
+        for _, c, a in builder)
     ctx.ob("R-THOMPSON", "CharSet: the loop runs over the set's own items", src_ok, key=key + ":items", where=where)
 
 
 def item_field(term, variant):
-    """field index if `term` is `<item> as variant . i` where item comes from an iterator's next()."""
+    """field index if `term` is `<item> as variant . i` where item is an element of an iterated collection"""
+    term = unguard(term)
     if term[0] == "path" and len(term[2]) >= 2 and term[2][-2] == ("as", variant) and term[2][-1][0] == "f":
         base = ("path", term[1], term[2][:-2]) if len(term[2]) > 2 else term[1]
-        if contains(base, lambda x: isinstance(x, tuple) and len(x) == 4 and x[0] == "call"
-                    and _re.search(r"Iterator>::next$", x[1]) is not None):
+        if unguard(base)[0] == "elem":
             return term[2][-1][1]
     return None
 
@@ -669,7 +842,7 @@ def check_add_regex(ctx, lex):
     if not ctx.ob("R-THOMPSON", "NFA::add_regex found", b is not None, key="R-THOMPSON:add_regex:anchor"):
         return
     roles = {1: "nfa", 2: "bindings", 3: "re", 4: "right_ctx", 5: "value"}
-    sym = Sym(b, roles)
+    sym = Sym(b, roles, crate=lex)
     calls = []
     for bi, bb in enumerate(sym.blocks):
         if bb["cleanup"]:
@@ -714,7 +887,7 @@ def check_rclassdispatch(ctx, prog):
                   key="R-CLASS:anchor"):
         return
     variants = [v["name"] for v in adt["variants"]]
-    sym = Sym(body, ROLES_R2RM)
+    sym = Sym(body, ROLES_R2RM, crate=lex)
     entries, private = arms_of(body, 2)
     if not ctx.ob("R-CLASS", "regex_to_range_map dispatches on the variant of `re`", entries is not None,
                   key="R-CLASS:dispatch", where=body["span"]):
@@ -752,6 +925,7 @@ def check_rclassdispatch(ctx, prog):
             continue
         key = "R-CLASS:%s" % vname
         where = blocks[entries[idx]].get("span")
+        sym = Sym(body, ROLES_R2RM, crate=lex, allowed=set(private[idx]))
         calls = arm_calls(sym, private[idx])
         ret = returned(idx)
         muts = [(bi, c, a) for bi, c, a, t in calls if c.startswith("range_map::RangeMap::") and
@@ -796,7 +970,7 @@ def check_rclassdispatch(ctx, prog):
             ctx.ob("R-CLASS", "Var: the class of `bindings[var]`", ok and not muts, key=key + ":lookup", where=where,
                    detail=show(r))
         elif vname == "Builtin":
-            ctx.ob("R-CLASS", "Builtin: the table found for the name", class_of_builtin(r, "Builtin") and not muts,
+            ctx.ob("R-CLASS", "Builtin: the table found for the name", class_of_builtin(r, "Builtin", sym) and not muts,
                    key=key + ":class", where=where, detail=show(r))
         elif vname == "Char":
             want = ("path", ("param", "re"), (("as", "Char"), ("f", 0)))
@@ -874,6 +1048,8 @@ def check_rprim(ctx, prog):
     for table, what in ((NFA_WRITERS, "writes"), (NFA_READERS, "reads")):
         for meth, field in sorted(table.items()):
             b = lex.body("nfa::NFA::" + meth)
+            if what == "reads" and b is None:
+                continue        # an accessor that was folded into its only user: nothing to cross-check
             if not ctx.ob("R-PRIM", "NFA::%s found" % meth, b is not None, key="R-PRIM:%s:anchor" % meth):
                 continue
             touched = state_fields_touched(b, "nfa::State::State.")
@@ -885,7 +1061,7 @@ def check_rprim(ctx, prog):
                 roles = {1: "self", 2: "state"}
                 argc = b["mir"]["argc"]
                 roles[argc] = "next" if meth != "make_state_accepting" else "right_ctx"
-                sym = Sym(b, roles)
+                sym = Sym(b, roles, crate=lex)
                 # the index into `states` is `state.0`
                 idx_ok = False
                 for bb in b["mir"]["blocks"]:
@@ -915,7 +1091,13 @@ def check_rprim(ctx, prog):
                                 stored = True
                     ctx.ob("R-PRIM", "NFA::%s stores its `next` argument as the target" % meth, stored,
                            key="R-PRIM:%s:next" % meth, where=b["span"])
-    ctx.floor("NFA builder and accessor methods checked for field agreement", n, 13)
+    # the empty-transition closure reads empty transitions only, wherever that read lives
+    cl = lex.body("nfa::NFA::compute_state_closure")
+    if ctx.ob("R-PRIM", "NFA::compute_state_closure found", cl is not None, key="R-PRIM:closure:anchor"):
+        touched = state_fields_touched(cl, "nfa::State::State.")
+        ctx.ob("R-PRIM", "NFA::compute_state_closure follows only State.empty_transitions",
+               touched <= {"empty_transitions"}, key="R-PRIM:closure:field", where=cl["span"], detail=sorted(touched))
+    ctx.floor("NFA builder and accessor methods checked for field agreement", n, 11)
 
 
 # --------------------------------------------------------------------------- subset construction pairing
@@ -953,6 +1135,58 @@ def closure_of(term):
     return None
 
 
+LOOKUPS = ("HashMap::get", "HashMap::entry", "HashMap::get_mut", "Index>::index", "BTreeMap::get", "BTreeMap::entry")
+
+
+def strip_clone(t):
+    while _is_call(t, "Clone>::clone") or _is_call(t, "::clone"):
+        t = t[3][0]
+    return t
+
+
+def lookup_or_register(calls, tgt, dfa):
+    """(state map term, key set term) if every alternative of `tgt` is either read out of one map under
+    one key, or a new state of `dfa` that is stored into that map under that key; else None."""
+    alts = list(tgt[1]) if tgt[0] == "phi" else [tgt]
+    maps, keys = set(), set()
+    for alt in alts:
+        found = []
+        contains(alt, lambda x: found.append(x) if any(_is_call(x, sfx) for sfx in LOOKUPS) else False)
+        if found:
+            for f in found:
+                maps.add(f[3][0])
+                keys.add(strip_clone(f[3][1]))
+            continue
+        if _is_call(alt, "DFA::new_state") and alt[3][0] == dfa:
+            reg = False
+            for bi, c, a in calls:
+                if c.endswith("HashMap::insert") and len(a) == 3 and a[2] == alt:
+                    maps.add(a[0])
+                    keys.add(strip_clone(a[1]))
+                    reg = True
+                elif c.endswith("VacantEntry::insert") and a[1] == alt:
+                    ents = []
+                    contains(a[0], lambda x: ents.append(x) if _is_call(x, "HashMap::entry") else False)
+                    for e in ents:
+                        maps.add(e[3][0])
+                        keys.add(strip_clone(e[3][1]))
+                        reg = True
+            if reg:
+                continue
+        return None
+    if len(maps) == 1 and len(keys) == 1:
+        return next(iter(maps)), next(iter(keys))
+    return None
+
+
+def own_value_from(term, X, field):
+    """True if one alternative of `term` IS field `field` of the item X belongs to (a start taken from
+    the end field or vice versa)."""
+    alts = list(term[1]) if term[0] == "phi" else [term]
+    want = ("path", X[1], X[2][:-1] + (("f", field),))
+    return any(a == want for a in alts)
+
+
 def check_rsubset(ctx, prog):
     """nfa_to_dfa: every DFA transition is added from the DFA state of the popped set, to the DFA state
     registered for the epsilon-closure of the collected targets, and that same closure is queued for
@@ -961,7 +1195,7 @@ def check_rsubset(ctx, prog):
     b = lex.body("nfa_to_dfa::nfa_to_dfa")
     if not ctx.ob("R-SUBSET", "nfa_to_dfa found", b is not None, key="R-SUBSET:anchor"):
         return
-    sym = Sym(b, {1: "nfa"})
+    sym = Sym(b, {1: "nfa"}, crate=lex)
     calls = _calls(sym)
     where = b["span"]
     pops = [x for x in calls if x[1] == "std::vec::Vec::pop"]
@@ -1002,16 +1236,17 @@ def check_rsubset(ctx, prog):
     ctx.ob("R-SUBSET", "the accepting value comes from NFA::get_accepting_state of a member of the popped set",
            contains(acc_val, lambda x: _is_call(x, "NFA::get_accepting_state") and x[3][0] == ("param", "nfa")
                     and from_pop(x[3][1])), key="R-SUBSET:accepting", where=where, detail=show(acc_val))
-    pushes_W = [x[2][1] for x in calls if x[1] == "std::vec::Vec::push" and x[2][0] == W]
+    pushes_W = [strip_clone(x[2][1]) for x in calls if x[1] == "std::vec::Vec::push" and x[2][0] == W]
 
     def check_target(kind, tgt, detail_where):
-        ok_map = _is_call(tgt, "nfa_to_dfa::dfa_state_of_nfa_states") and tgt[3][0] == dfa and tgt[3][1] == state_map
-        ctx.ob("R-SUBSET", "%s: the target is the DFA state registered (or created) for a set of NFA states in "
-               "the same state map" % kind, ok_map, key="R-SUBSET:%s:target" % kind, where=where, detail=show(tgt))
+        lr = lookup_or_register(calls, tgt, dfa)
+        ok_map = lr is not None and (state_map is None or lr[0] == state_map)
+        ctx.ob("R-SUBSET", "%s: the target is the DFA state registered (or created and registered) for a set of "
+               "NFA states in the state map" % kind, ok_map, key="R-SUBSET:%s:target" % kind, where=where,
+               detail=show(tgt)[:400])
         if not ok_map:
             return None
-        key_set = tgt[3][2]
-        C = key_set[3][0] if _is_call(key_set, "Clone>::clone") or _is_call(key_set, "::clone") else key_set
+        C = lr[1]
         X = closure_of(C)
         ctx.ob("R-SUBSET", "%s: that set is the empty-transition closure (compute_state_closure) of the collected "
                "targets" % kind, X is not None, key="R-SUBSET:%s:closure" % kind, where=where, detail=show(C))
@@ -1056,48 +1291,44 @@ def check_rsubset(ctx, prog):
         ctx.ob("R-SUBSET", "range: ranges are pushed to that vector at one place", len(items) == 1,
                key="R-SUBSET:range:push", where=where)
         for it in items:
-            ok_agg = it[0] == "agg" and "range_map::Range" in it[1] and len(it[2]) == 3
+            ok_agg = it[0] == "agg" and it[1].startswith("adt:range_map::Range") and len(it[2]) == 3
             ctx.ob("R-SUBSET", "range: a Range { start, end, value } is pushed", ok_agg, key="R-SUBSET:range:agg",
                    where=where)
             if not ok_agg:
                 continue
             start, end, value = it[2]
             X = check_target("range", value, bi)
-            clamp = []
-            contains(start, lambda x: clamp.append(x) if _is_call(x, "nfa_to_dfa::clamp_to_chars") else False)
             ok = False
-            if clamp and X is not None:
-                cl = clamp[0]
-                s_in, e_in = cl[3]
-                same_item = s_in[0] == "path" and e_in[0] == "path" and X[0] == "path" and \
-                    s_in[1] == e_in[1] == X[1] and s_in[2][:-1] == e_in[2][:-1] == X[2][:-1]
-                fields = (s_in[2][-1], e_in[2][-1], X[2][-1]) == (("f", 0), ("f", 1), ("f", 2)) if same_item else False
-                outs = start[0] == "path" and end[0] == "path" and start[2][-1] == ("f", 0) and end[2][-1] == ("f", 1) \
-                    and contains(end, lambda x: x == cl)
-                ok = same_item and fields and outs
-            ctx.ob("R-SUBSET", "range: start, end (clamped to scalar values, in that order) and the target set come "
-                   "from the same collected range", ok, key="R-SUBSET:range:item", where=where,
-                   detail=[show(start)[:160], show(end)[:160], show(X)[:160] if X else None])
+            det = None
+            if X is not None and X[0] == "path" and X[2] and X[2][-1] == ("f", 2):
+                item = ("path", X[1], X[2][:-1]) if len(X[2]) > 1 else X[1]
+
+                def fields_of_item(t):
+                    out = set()
+
+                    def walk(y):
+                        if isinstance(y, tuple):
+                            if len(y) == 3 and y[0] == "path" and y[1] == X[1] and y[2][:len(X[2]) - 1] == X[2][:-1] \
+                                    and len(y[2]) >= len(X[2]):
+                                out.add(y[2][len(X[2]) - 1])
+                                return
+                            for z in y:
+                                walk(z)
+                        elif isinstance(y, frozenset):
+                            for z in y:
+                                walk(z)
+                    walk(t)
+                    return out
+                fs, fe = fields_of_item(start), fields_of_item(end)
+                # each end may be clamped using constants and itself; whether the piece is kept may
+                # depend on both, but the value stored comes from its own field
+                ok = ("f", 0) in fs and ("f", 1) in fe and ("f", 2) not in fs | fe and \
+                    not own_value_from(start, X, 1) and not own_value_from(end, X, 0)
+                det = {"start uses fields": sorted(fs), "end uses fields": sorted(fe)}
+            ctx.ob("R-SUBSET", "range: start and end (possibly clamped to scalar values) are the start and the end, "
+                   "in that order, of the same collected range whose targets are used", ok,
+                   key="R-SUBSET:range:item", where=where, detail=det)
     ctx.floor("places in nfa_to_dfa where DFA transitions are added", n_sites, 4)
-    # the helper: registered state or a new one that is registered
-    h = lex.body("nfa_to_dfa::dfa_state_of_nfa_states")
-    if ctx.ob("R-SUBSET", "dfa_state_of_nfa_states found", h is not None, key="R-SUBSET:helper:anchor"):
-        hs = Sym(h, {1: "dfa", 2: "state_map", 3: "states"})
-        hc = _calls(hs)
-        ent = [x for x in hc if x[1].endswith("HashMap::entry")]
-        ok = len(ent) == 1 and ent[0][2][0] == ("param", "state_map") and ent[0][2][1] == ("param", "states")
-        ctx.ob("R-SUBSET", "dfa_state_of_nfa_states looks the given set up in the given map", ok,
-               key="R-SUBSET:helper:lookup", where=h["span"])
-        ins = [x for x in hc if x[1].endswith("VacantEntry::insert")]
-        ok = len(ins) == 1 and _is_call(ins[0][2][1], "DFA::new_state") and ins[0][2][1][3][0] == ("param", "dfa")
-        ctx.ob("R-SUBSET", "dfa_state_of_nfa_states registers a new state of the same DFA when the set is unknown",
-               ok, key="R-SUBSET:helper:insert", where=h["span"])
-        ret = hs.local(0)
-        alts = list(ret[1]) if ret[0] == "phi" else [ret]
-        ok = len(alts) == 2 and any(_is_call(x, "DFA::new_state") for x in alts) and \
-            any(contains(x, lambda y: _is_call(y, "OccupiedEntry::get")) for x in alts)
-        ctx.ob("R-SUBSET", "dfa_state_of_nfa_states returns the registered state or the new one", ok,
-               key="R-SUBSET:helper:result", where=h["span"], detail=show(ret))
 
 
 # --------------------------------------------------------------------------- subset construction provenance
@@ -1114,18 +1345,22 @@ def is_default(t):
     return isinstance(t, tuple) and len(t) == 4 and t[0] == "call" and t[1].endswith("Default>::default")
 
 
+def unguard(t):
+    while isinstance(t, tuple) and t and t[0] == "guarded":
+        t = t[2]
+    return t
+
+
 def item_of(t):
-    """(collection term, path) if t is `next(into_iter*(coll)) as Some .0 <path>`"""
-    if t[0] != "path":
+    """(collection term, path) if t is an element (or a field of an element) of a collection that is
+    iterated, by a loop or through iterator adaptors."""
+    t = unguard(t)
+    path = ()
+    if t[0] == "path":
+        t, path = unguard(t[1]), t[2]
+    if t[0] != "elem":
         return None
-    base, path = t[1], t[2]
-    if not (_is_call(base, "Iterator>::next") and path[:2] == (("as", "Some"), ("f", 0))):
-        return None
-    c = base[3][0]
-    while isinstance(c, tuple) and len(c) == 4 and c[0] == "call" and _re.search(
-            r"(into_iter|::iter|::copied|Deref>::deref)$", c[1]):
-        c = c[3][0]
-    return c, path[2:]
+    return t[1], path
 
 
 NAV = _re.compile(r"(Iterator>::next|IntoIterator>::into_iter|HashMap::entry|Entry::or_default|::iter|"
@@ -1137,7 +1372,7 @@ def check_rprov(ctx, prog):
     b = lex.body("nfa_to_dfa::nfa_to_dfa")
     if not ctx.ob("R-PROV", "nfa_to_dfa found", b is not None, key="R-PROV:anchor"):
         return
-    sym = Sym(b, {1: "nfa"})
+    sym = Sym(b, {1: "nfa"}, crate=lex)
     blocks = sym.blocks
     loops, dom, preds = cfg.natural_loops(blocks)
     locals_ = b["mir"]["locals"]
@@ -1176,9 +1411,8 @@ def check_rprov(ctx, prog):
             ctx.ob("R-PROV", "one %s site" % kind, False, key="R-PROV:%s:site" % kind, where=where)
             return
         tgt = sites[0][2][-1]
-        ks = tgt[3][2] if _is_call(tgt, "dfa_state_of_nfa_states") else None
-        C = ks[3][0] if ks is not None and _is_call(ks, "clone") else ks
-        X = closure_of(C) if C is not None else None
+        lr = lookup_or_register([(x[0], x[1], x[2]) for x in calls], tgt, sites[0][2][0])
+        X = closure_of(lr[1]) if lr is not None else None
         if X is None:
             ctx.ob("R-PROV", "%s target is a closure" % kind, False, key="R-PROV:%s:closure" % kind, where=where)
             return
@@ -1194,16 +1428,16 @@ def check_rprov(ctx, prog):
     if not ok:
         return
     D_char = ci[0]
-    CHAR_ITEM = ("path", coll["char"][1], coll["char"][2][:-1])
+    CHAR_ITEM = ("path", coll["char"][1], coll["char"][2][:-1]) if len(coll["char"][2]) > 1 else coll["char"][1]
     # range map: from the Range aggregate pushed
     D_range = None
     X_range = None
     for bi, c, a, m in calls:
-        if c == "std::vec::Vec::push" and a[1][0] == "agg" and "range_map::Range" in a[1][1]:
+        if c == "std::vec::Vec::push" and a[1][0] == "agg" and a[1][1].startswith("adt:range_map::Range"):
             v = a[1][2][2]
-            ks = v[3][2] if _is_call(v, "dfa_state_of_nfa_states") else None
-            C = ks[3][0] if ks is not None and _is_call(ks, "clone") else ks
-            X_range = closure_of(C) if C is not None else None
+            dfa_t = [x for x in calls if x[1].endswith("DFA::set_range_transitions")]
+            lr = lookup_or_register([(x[0], x[1], x[2]) for x in calls], v, dfa_t[0][2][0]) if dfa_t else None
+            X_range = closure_of(lr[1]) if lr is not None else None
     ri = item_of(X_range) if X_range is not None else None
     ok = ri is not None and is_default(ri[0]) and ri[1] == (("f", 2),)
     ctx.ob("R-PROV", "range targets are the values of a fresh range map iterated piece by piece", ok,
@@ -1261,7 +1495,7 @@ def check_rprov(ctx, prog):
         root = roots[0]
         what = names[root]
         key = "R-PROV:%s" % what.split()[0].strip("`")
-        vals = [x for x in a[1:] if not (x[0] == "agg" and "closure" in x[1])]
+        vals = [x for x in a[1:] if not (x[0] == "agg" and x[1].startswith("closure:"))]
         acc, cols = sources(vals)
         cols.discard(root) if a[0] != root else None
         stage2 = a[0] != root and not _is_call(a[0], "Entry::or_default")
@@ -1291,11 +1525,16 @@ def check_rprov(ctx, prog):
                 rs = subterms(a[1], lambda x: isinstance(x, tuple) and x[:1] == ("path",) and
                               item_of(x) is not None and item_of(x)[0] == D_range and item_of(x)[1] == (("f", 2),), [])
                 guarded = False
+                CH = project(CHAR_ITEM, (("f", 0),))
                 for r_ in rs:
-                    R = ("path", r_[1], r_[2][:-1])
-                    guards = [gb for gb, gc, ga, gm in calls if gc.endswith("Range::contains") and ga[0] == R
-                              and ga[1] == ("path", CHAR_ITEM[1], CHAR_ITEM[2] + (("f", 0),))]
+                    R = ("path", r_[1], r_[2][:-1]) if len(r_[2]) > 1 else r_[1]
+                    guards = [gb for gb, gc, ga, gm in calls if gc.endswith("Range::contains") and unguard(ga[0]) == unguard(R)
+                              and ga[1] == CH]
                     guarded = guarded or any(true_edge_dominates(blocks, dom, g, bi) for g in guards)
+                    # or the range comes out of `.filter(|r| r.contains(char))`
+                    if R[0] == "guarded" and _is_call(R[1], "Range::contains") and unguard(R[1][3][0]) == unguard(R) \
+                            and R[1][3][1] == CH:
+                        guarded = True
                 if not guarded:
                     ok = False
                     rule += " (the range must be tested with contains(char) first)"
@@ -1336,3 +1575,212 @@ def check_rprov(ctx, prog):
     ctx.floor("places where the subset construction adds states to a target set", n_mut, 7)
 
 
+
+
+# --------------------------------------------------------------------------- index shifts (R-OFFSET on terms)
+def closure_terms(sym):
+    """Terms of the closures created in sym's body."""
+    out = []
+    for bb in sym.blocks:
+        if bb["cleanup"]:
+            continue
+        for st in bb["st"]:
+            rv = st.get("rv")
+            if rv and rv["k"] == "agg" and (rv["kind"] or {}).get("agg") == "closure" and "lhs" in st \
+                    and not st["lhs"]["p"]:
+                t = sym.local(st["lhs"]["l"])
+                for alt in (t[1] if t[0] == "phi" else [t]):
+                    if alt[0] == "agg" and alt[1].startswith("closure:"):
+                        out.append(alt)
+    return out
+
+
+def child_sym(sym, clo):
+    cb = sym.crate.body(norm_path(clo[1][len("closure:"):])) if sym.crate is not None else None
+    if cb is None or sym.depth >= 4:
+        return None
+    return Sym(cb, {1: clo}, crate=sym.crate, depth=sym.depth + 1)
+
+
+def collect_bins(sym, op, seen=None):
+    """(a, b, where) for every `a op b` computed in sym's body or in a closure created in it (closure
+    bodies are evaluated with their captured variables bound to the creating function's terms)."""
+    seen = set() if seen is None else seen
+    out = []
+    for bi, bb in enumerate(sym.blocks):
+        if bb["cleanup"]:
+            continue
+        for st in bb["st"]:
+            rv = st.get("rv")
+            if rv and rv["k"] == "bin" and rv["op"].replace("WithOverflow", "") == op:
+                out.append((sym.operand(rv["a"]), sym.operand(rv["b"]), bb.get("span")))
+    for clo in closure_terms(sym):
+        if clo in seen:
+            continue
+        seen.add(clo)
+        ch = child_sym(sym, clo)
+        if ch is not None:
+            out += collect_bins(ch, op, seen)
+    return out
+
+
+def deep_has(sym, term, pred, depth=0):
+    """pred holds for a subterm of `term`, of what was added to a collection it mentions, or of a
+    binary operation inside a closure it mentions."""
+    hit = []
+
+    def walk(t, d):
+        if hit or d > 6:
+            return
+        if isinstance(t, tuple):
+            if pred(t):
+                hit.append(t)
+                return
+            if len(t) == 4 and t[0] == "call":
+                for v in sym.contents(t):
+                    walk(v, d + 1)
+            if len(t) == 3 and t[0] == "agg" and isinstance(t[1], str) and t[1].startswith("closure:"):
+                ch = child_sym(sym, t)
+                if ch is not None:
+                    for a, b, _w in collect_bins(ch, "Add"):
+                        walk(("bin", "Add", a, b), d + 1)
+            for x in t:
+                walk(x, d + 1)
+        elif isinstance(t, frozenset):
+            for x in t:
+                walk(x, d + 1)
+    walk(term, depth)
+    return bool(hit)
+
+
+def check_roffset(ctx, prog):
+    """DFA::add_dfa: every index addition adds the number of states before the append; each of the five
+    index-carrying fields of an appended state goes through such an addition; the function returns
+    that number as the appended automaton's entry."""
+    lex = prog.crate(LEX)
+    b = lex.body("dfa::DFA::add_dfa")
+    if not ctx.ob("R-OFFSET", "DFA::add_dfa found", b is not None, key="R-OFFSET:anchor"):
+        return
+    sym = Sym(b, {1: "self", 2: "other"}, crate=lex)
+    where = b["span"]
+    lens = [x for x in sym.all_calls() if x[1] == "std::vec::Vec::len" and
+            contains(x[2][0], lambda y: y == ("param", "self"))]
+    ret = sym.local(0)
+    N = None
+    if ret[0] == "agg" and ret[1].startswith("adt:dfa::StateIdx") and len(ret[2]) == 1:
+        N = ret[2][0]
+    ok = N is not None and _is_call(N, "Vec::len") and contains(N[3][0], lambda y: y == ("param", "self")) and \
+        contains(N[3][0], lambda y: isinstance(y, tuple) and y[:1] == ("path",) or y == ("param", "self"))
+    ctx.ob("R-OFFSET", "add_dfa returns StateIdx(number of states before the append) as the appended rule set's "
+           "entry", ok, key="R-OFFSET:return", where=where, detail=show(ret))
+    if not ok:
+        return
+    adds = collect_bins(sym, "Add")
+    for a_, b_, w in adds:
+        ctx.ob("R-OFFSET", "add_dfa: an index is shifted by the number of states before the append",
+               a_ == N or b_ == N, key="R-OFFSET:add", where=w, detail=[show(a_), show(b_)])
+    ctx.floor("index additions in DFA::add_dfa (including its closures)", len(adds), 1)
+    # the State value that is pushed
+    pushed = None
+    for bb in sym.blocks:
+        if bb["cleanup"]:
+            continue
+        for st in bb["st"]:
+            rv = st.get("rv")
+            if rv and rv["k"] == "agg" and (rv["kind"] or {}).get("adt") == "dfa::State" and "lhs" in st:
+                pushed = (rv["kind"].get("fields") or [], [sym.operand(o) for o in rv["ops"]])
+    if not ctx.ob("R-OFFSET", "add_dfa builds the appended State values", pushed is not None,
+                  key="R-OFFSET:state", where=where):
+        return
+    names, ops = pushed
+
+    def shifted(t):
+        return deep_has(sym, t, lambda y: isinstance(y, tuple) and len(y) == 4 and y[0] == "bin" and y[1] == "Add"
+                        and (y[2] == N or y[3] == N))
+    for f in ("char_transitions", "range_transitions", "any_transition", "end_of_input_transition", "predecessors"):
+        if f not in names:
+            ctx.ob("R-OFFSET", "appended State has field %s" % f, False, key="R-OFFSET:field:" + f, where=where)
+            continue
+        t = ops[names.index(f)]
+        ctx.ob("R-OFFSET", "add_dfa: the state indices in `%s` of an appended state are shifted by the number of "
+               "states before the append" % f, shifted(t), key="R-OFFSET:field:" + f, where=where,
+               detail=show(t)[:300])
+
+
+def check_rshift(ctx, prog):
+    """dfa::simplify::simplify: which states are removed, and that every index that survives is lowered
+    by an amount found by searching the list of removed states."""
+    from .rules_src import cfg as _cfg
+    lex = prog.crate(LEX)
+    b = lex.body("dfa::simplify::simplify")
+    if not ctx.ob("R-SHIFT", "simplify found", b is not None, key="R-SHIFT:anchor"):
+        return
+    sym = Sym(b, {1: "dfa", 2: "dfa_state_indices"}, crate=lex)
+    blocks = sym.blocks
+    where = b["span"]
+    loops, dom, preds = _cfg.natural_loops(blocks)
+    calls = []
+    for bi, bb in enumerate(blocks):
+        if bb["cleanup"]:
+            continue
+        t = bb["term"]
+        if t["k"] == "call":
+            calls.append((bi, norm_path(t.get("resp") or t["f"].get("path")) or "?",
+                          tuple(sym.operand(a) for a in t["args"])))
+    hn = [bi for bi, c, a in calls if c == "dfa::State::has_no_transitions"]
+    guarded = [(bi, a) for bi, c, a in calls if c == "std::vec::Vec::push"
+               and any(true_edge_dominates(blocks, dom, h, bi) for h in hn)]
+    lists = {a[0] for bi, a in guarded}
+    if not ctx.ob("R-SHIFT", "one list collects the states that have no transitions (the removed states)",
+                  len(lists) == 1, key="R-SHIFT:list", where=where, detail=[show(x) for x in lists]):
+        return
+    ES = next(iter(lists))
+    ok1 = True
+    for bi, c, a in calls:
+        if c == "std::vec::Vec::push" and a[0] == ES:
+            ok1 = ok1 and any(true_edge_dominates(blocks, dom, h, bi) for h in hn)
+            init_ok = False
+            for bj, bb in enumerate(blocks):
+                t = bb["term"]
+                if t["k"] == "switch" and len(t["arms"]) == 1 and t["arms"][0][0] == 0:
+                    d = t["d"].get("move") or t["d"].get("copy")
+                    if d is None:
+                        continue
+                    cond = sym.local(d["l"])
+                    reads_initial = contains(cond, lambda y: isinstance(y, tuple) and y[:1] == ("path",) and
+                                             any(p == ("f", 0) for p in y[2][-1:])) and "initial" in repr(
+                        [st for st in bb["st"] if "lhs" in st and st["lhs"]["l"] == d["l"]])
+                    if reads_initial and t["arms"][0][1] in dom.get(bi, ()):
+                        init_ok = True
+            ok1 = ok1 and init_ok
+    ctx.ob("R-SHIFT", "a state is removed only if it has no transitions and is not a rule set's initial state",
+           ok1, key="R-SHIFT:removal", where=where,
+           detail="initial states are kept even when empty (empty rule sets): counting them as removed shifts "
+                  "every later entry index")
+
+    def searched(t):
+        """t is computed by a call that looks into the removed-state list"""
+        return contains(t, lambda y: isinstance(y, tuple) and len(y) == 4 and y[0] == "call" and y[3]
+                        and contains(y[3][0], lambda z: z == ES))
+    subs_body = []
+    for bi, bb in enumerate(blocks):
+        if bb["cleanup"]:
+            continue
+        for st in bb["st"]:
+            rv = st.get("rv")
+            if rv and rv["k"] == "bin" and rv["op"].replace("WithOverflow", "") == "Sub":
+                subs_body.append((sym.operand(rv["a"]), sym.operand(rv["b"]), bb.get("span")))
+    subs_all = collect_bins(sym, "Sub")
+    # index subtractions only (pointer-alignment checks of debug builds subtract constants)
+    subs_all = [x for x in subs_all if not (x[0][0] == "const" and x[1][0] == "const")]
+    subs_body = [x for x in subs_body if not (x[0][0] == "const" and x[1][0] == "const")]
+    for a_, b_, w in subs_all:
+        ctx.ob("R-SHIFT", "a state index is lowered by an amount found by searching the list of removed states",
+               searched(b_), key="R-SHIFT:amount", where=w, detail=[show(a_)[:200], show(b_)[:300]])
+    entry = [x for x in subs_body if contains(x[0], lambda y: y == ("param", "dfa_state_indices"))]
+    ctx.ob("R-SHIFT", "rule-set entry indices (the values of the entry map) are renumbered that way",
+           bool(entry), key="R-SHIFT:entries", where=where,
+           detail=[[show(a_)[:160], show(b_)[:200]] for a_, b_, w in subs_body])
+    ctx.ob("R-SHIFT", "transition targets are renumbered that way too (inside the closures that rebuild the states)",
+           len(subs_all) > len(subs_body), key="R-SHIFT:transitions", where=where)
+    ctx.floor("index subtractions in simplify and its closures", len(subs_all), 2)
